@@ -576,4 +576,136 @@ def queryBytes (c : Cfg) (e : QCfg) (fin fnotin : Filters) : Option Bytes :=
   | none => none
   | some fs => some (flatten fs)
 
+/-! ### integer expressions of the where-clause and their value (ClickHouse typing of the forms the builder emits) -/
+
+/-- the integer expression forms the builder writes: Int32 columns (tagN, pre_tag, _prekey), Int64 aliases (_tagN),
+    toUInt32, toInt64, bitShiftLeft by a constant, bitOr -/
+inductive IExpr where
+  | col32 (name : Bytes)
+  | col64 (name : Bytes)
+  | toUInt32 (e : IExpr)
+  | toInt64 (e : IExpr)
+  | shl (e : IExpr) (n : Nat)
+  | bor (a b : IExpr)
+deriving DecidableEq, Repr
+
+def IExpr.render : IExpr → Bytes
+  | .col32 n => n
+  | .col64 n => n
+  | .toUInt32 e => str "toUInt32(" ++ e.render ++ str ")"
+  | .toInt64 e => str "toInt64(" ++ e.render ++ str ")"
+  | .shl e n => str "bitShiftLeft(" ++ e.render ++ str "," ++ natBytes n ++ str ")"
+  | .bor a b => str "bitOr(" ++ a.render ++ str "," ++ b.render ++ str ")"
+
+/-- a typed integer value: 32 or 64 bits wide, signed or not; `bits` holds the value extended to 64 bits according to its
+    type (sign-extended if signed, zero-extended otherwise), so conversions that preserve the value keep `bits` -/
+structure IVal where
+  wide : Bool
+  signed : Bool
+  bits : BitVec 64
+deriving DecidableEq, Repr
+
+def ext32 (signed : Bool) (x : BitVec 32) : BitVec 64 := if signed then x.signExtend 64 else x.zeroExtend 64
+
+/-- ClickHouse rules used (trusted, see checks/C26.py): tagN columns are Int32; toUInt32 keeps the low 32 bits; toInt64 preserves
+    the value; bitShiftLeft has the type of its first argument and shifts inside its width; bitOr converts both arguments,
+    value-preserving, to the common type (64 bits if either is, or if signedness differs; signed if either is) -/
+def IExpr.eval (e32 : Bytes → BitVec 32) (e64 : Bytes → BitVec 64) : IExpr → IVal
+  | .col32 n => ⟨false, true, ext32 true (e32 n)⟩
+  | .col64 n => ⟨true, true, e64 n⟩
+  | .toUInt32 e => ⟨false, false, ext32 false ((e.eval e32 e64).bits.setWidth 32)⟩
+  | .toInt64 e => ⟨true, true, (e.eval e32 e64).bits⟩
+  | .shl e n =>
+    let v := e.eval e32 e64
+    if v.wide then ⟨true, v.signed, v.bits <<< n⟩ else ⟨false, v.signed, ext32 v.signed ((v.bits.setWidth 32) <<< n)⟩
+  | .bor a b =>
+    let x := a.eval e32 e64
+    let y := b.eval e32 e64
+    ⟨x.wide || y.wide || (x.signed != y.signed), x.signed || y.signed, x.bits ||| y.bits⟩
+
+/-- raw64Expr as a tree -/
+def raw64AST (hi lo : Bytes) : IExpr :=
+  .bor (.shl (.toInt64 (.toUInt32 (.col32 hi))) 32) (.toUInt32 (.col32 lo))
+
+/-- whereIntExpr as a tree (`whereIntAST_render`: it renders to `whereIntExpr`) -/
+def whereIntAST (c : Cfg) (x : Nat) : IExpr :=
+  if c.mode == 0 && isPreKeyTag c x then .col32 (str "_prekey")
+  else if isRaw64 c x then
+    (if groupedBy c x then .col64 (str "_tag" ++ natBytes x) else raw64AST (colInt c (x + 1)) (colInt c x))
+  else .col32 (colInt c x)
+
+/-! ### from the user's filter string to a TagValue (requestHandler.GetTagFilter, internal/api/promql.go) -/
+
+def isDigit (c : UInt8) : Bool := 48 ≤ c && c ≤ 57
+
+def digitsValue (ds : Bytes) : Nat := ds.foldl (fun a c => a * 10 + (c.toNat - 48)) 0
+
+def inInt64 (v : Int) : Bool := decide (-9223372036854775808 ≤ v) && decide (v ≤ 9223372036854775807)
+
+def parseDigits (neg : Bool) (ds : Bytes) : Option Int :=
+  if ds.isEmpty || !ds.all isDigit then none
+  else
+    let v : Int := if neg then -(Int.ofNat (digitsValue ds)) else Int.ofNat (digitsValue ds)
+    if inInt64 v then some v else none
+
+/-- strconv.ParseInt(s, 10, 64): optional sign, at least one decimal digit, value in the int64 range -/
+def parseInt64 : Bytes → Option Int
+  | [] => none
+  | c :: r => if c == 45 then parseDigits true r else if c == 43 then parseDigits false r else parseDigits false (c :: r)
+
+/-- format.ParseCodeTagValue: a space followed by a decimal integer -/
+def parseCode : Bytes → Option Int
+  | [] => none
+  | c :: r => if c == 32 then parseInt64 r else none
+
+/-- what GetTagFilter reads from the metric's tag: whether tagIndex is inside metric.Tags, the tag's Raw(), whether its name is
+    the histogram bucket label "le", and its ValueComments as (raw code key, comment) pairs (keys distinct and non-empty) -/
+structure TagCtx where
+  inTags : Bool
+  raw : Bool
+  isLe : Bool
+  comments : List (Bytes × Bytes)
+deriving DecidableEq, Repr
+
+def TagCtx.isRaw (t : TagCtx) : Bool := t.inTags && t.raw
+
+def tvEmpty : TagValue := ⟨true, true, [], 0⟩          -- NewTagValue("", 0)
+def tvM (n : Int) : TagValue := ⟨false, true, [], n⟩    -- NewTagValueM(n)
+def tvBoth (s : Bytes) (n : Int) : TagValue := ⟨true, true, s, n⟩   -- NewTagValue(s, n)
+
+def commentKeys (t : TagCtx) (s : Bytes) : List Bytes := (t.comments.filter (fun p => p.2 == s)).map (·.1)
+
+/-- the loop over ValueComments: `none` = no comment equals the string, fall through to the mapping lookup;
+    `some none` = error (ambiguous comment, or the key is not a raw code) -/
+def rawComment (t : TagCtx) (s : Bytes) : Option (Option TagValue) :=
+  match commentKeys t s with
+  | [] => none
+  | [k] => some (match parseCode k with | none => none | some v => some (tvM v))
+  | _ :: _ :: _ => some none
+
+def tagValueIDDoesNotExist : Int := -2
+
+/-- GetTagValueID for an ordinary tag: the string->id mapping, or TagValueIDDoesNotExist -/
+def mapString (lookup : Bytes → Option Int) (s : Bytes) : TagValue :=
+  match lookup s with
+  | some id => tvBoth s id
+  | none => tvBoth s tagValueIDDoesNotExist
+
+/-- requestHandler.GetTagFilter. `lookup` = mappingsStorage.GetValue; `leEnc` = LexEncode(float32(v)) when
+    strconv.ParseFloat(s, 32) succeeds (external float code, passed in). `none` = error. -/
+def getTagFilter (lookup : Bytes → Option Int) (leEnc : Option Int) (t : TagCtx) (s : Bytes) : Option TagValue :=
+  if s.isEmpty then some tvEmpty
+  else if s.head? == some 32 then
+    (match parseCode s with
+     | none => none
+     | some v => if v != 0 then some (tvM v) else some tvEmpty)
+  else if t.isRaw then
+    (match (if t.isLe then leEnc else none) with
+     | some e => some (tvM e)
+     | none =>
+       match rawComment t s with
+       | some r => r
+       | none => some (tvBoth s tagValueIDDoesNotExist))   -- getRichTagValueID on a raw tag: comment not found
+  else some (mapString lookup s)
+
 end SH.Sql
